@@ -6,6 +6,7 @@ use hbv::case::Case;
 use hbv::dump::*;
 use hbv::outcome::Outcome;
 use hbv::specs::map as m;
+use hbv::specs::table as t;
 use proptest::strategy::BoxedStrategy;
 
 fn eval_plain(case: &Case) -> Outcome {
@@ -75,7 +76,7 @@ pub static C01: PropDef = PropDef {
         "the verif-hooks dump reads the table's fields faithfully",
         "table sizes explored are bounded (<= a few thousand buckets)",
     ],
-    prop_labels: &[(L_PROP_A, "entry_at_growth_left_0"), (L_PROP_B, "probe_window_with_tombstone")],
+    prop_labels: &[],
 };
 
 // ---------------------------------------------------------------------------------------------
@@ -216,7 +217,7 @@ fn eval_c04(case: &Case) -> Outcome {
 }
 
 fn c04_nontrivial(_c: &Case, o: &Outcome) -> bool {
-    o.counters.iter().any(|c| c.0 == "faults_fired" && c.1 > 0) && o.labels & (L_PROP_D | L_PROP_E | L_PROP_F) != 0
+    o.counters.iter().any(|c| c.0 == "faults_fired" && c.1 > 0) && o.labels & (L_FAULT_GROWTH | L_FAULT_REHASH | L_FAULT_OTHER) != 0
 }
 
 pub static C04: PropDef = PropDef {
@@ -238,14 +239,589 @@ pub static C04: PropDef = PropDef {
         "S::clone / A::clone are not injected (DESIGN 11.3)",
         "a second panic while unwinding is outside the property and never injected",
     ],
-    prop_labels: &[
-        (L_PROP_C, "fault_unwound"),
-        (L_PROP_D, "fault_during_growth_into_new_block"),
-        (L_PROP_E, "hash_fault_under_rehash_in_place_conditions"),
-        (L_PROP_F, "fault_in_clone_drop_closure_into_or_iterator"),
+    prop_labels: &[],
+};
+
+// ---------------------------------------------------------------------------------------------
+// C06
+
+static C06_WEIGHTS: &[(u16, u32)] = &[
+    (t::INSERT_UNIQUE, 20),
+    (t::INSERT_DUP, 4),
+    (t::FIND, 6),
+    (t::FIND_MUT, 4),
+    (t::FIND_ENTRY, 14),
+    (t::ENTRY, 12),
+    (t::RETAIN, 2),
+    (t::EXTRACT_IF, 2),
+    (t::DRAIN, 1),
+    (t::CLEAR, 1),
+    (t::RESERVE, 2),
+    (t::TRY_RESERVE, 1),
+    (t::SHRINK_TO_FIT, 2),
+    (t::SHRINK_TO, 2),
+    (t::GET_MANY_MUT, 3),
+    (t::ITER_HASH, 6),
+    (t::ITER, 2),
+    (t::CLONE_SWAP, 1),
+    (t::FILL_TO_CAPACITY, 4),
+    (t::REMOVE_RUN, 5),
+    (t::REMOVE_ALL_BUT, 2),
+    (t::REHASH_SETUP, 2),
+    (t::REMOVE_NTH, 4),
+];
+
+fn c06_strategy(tier: Tier) -> BoxedStrategy<Case> {
+    table_case_strategy(TableGen {
+        prop: 6,
+        weights: C06_WEIGHTS,
+        max_ops: if tier == Tier::Quick { 100 } else { 300 },
+        generic_pct: 20,
+        plain_pct: 30,
+    })
+}
+
+fn c06_nontrivial(_c: &Case, o: &Outcome) -> bool {
+    o.labels & (L_REINSERT_VACANT | L_ENTRY_AT_FULL | L_ITER_HASH_LONG) != 0
+}
+
+pub static C06: PropDef = PropDef {
+    id: "C06",
+    rule: "cases = (hash plan over `nh` hash classes, id universe, capacity, back-end, element flavour, op list) with \
+           caller-supplied hashes; exact duplicates (same id and hash) are generated; non-trivial = the case did a \
+           remove-then-reinsert through the returned VacantEntry, OR called entry() at growth_left == 0, OR ran \
+           iter_hash over a probe longer than one group",
+    level: "exploration",
+    cases_quick: 24_000,
+    cases_thorough: 400_000,
+    strategy: c06_strategy,
+    eval: eval_plain,
+    nontrivial: c06_nontrivial,
+    specs: hbv::specs::TABLE_OPS,
+    assumptions: &[
+        "lookups use the hash the element was inserted with and closures that match on (id, hash)",
+        "the multiset model (keyed by a unique id per inserted element) is correct",
     ],
+    prop_labels: &[],
+};
+
+// ---------------------------------------------------------------------------------------------
+// helpers for map-interpreter properties
+
+fn union2(a: BoxedStrategy<Case>, wa: u32, b: BoxedStrategy<Case>, wb: u32) -> BoxedStrategy<Case> {
+    use proptest::strategy::Union;
+    Union::new_weighted(vec![(wa, a), (wb, b)]).boxed()
+}
+use proptest::strategy::Strategy;
+
+// ---------------------------------------------------------------------------------------------
+// C03: every element and allocation released exactly once (tracked elements only)
+
+static C03_MAP_WEIGHTS: &[(u16, u32)] = &[
+    (m::INSERT, 18),
+    (m::REMOVE, 10),
+    (m::ENTRY, 6),
+    (m::ENTRY_REF, 3),
+    (m::EXTEND, 3),
+    (m::CLEAR, 3),
+    (m::RETAIN, 4),
+    (m::EXTRACT_IF, 5),
+    (m::DRAIN, 5),
+    (m::INTO_ITER, 5),
+    (m::SHRINK_TO_FIT, 3),
+    (m::SHRINK_TO, 3),
+    (m::CLONE_TO_OTHER, 3),
+    (m::CLONE_FROM_OTHER, 6),
+    (m::SWAP, 3),
+    (m::DROP_RECREATE, 3),
+    (m::FILL_TO_CAPACITY, 3),
+    (m::FILL_EXACT, 3),
+    (m::REMOVE_RUN, 4),
+    (m::REHASH_SETUP, 3),
+    (m::REBUILD, 2),
+    (m::RAW_ENTRY, 2),
+    (m::RUSTC_ENTRY, 2),
+    (m::REMOVE_NTH, 3),
+    (m::TRY_INSERT, 2),
+];
+
+static C03_TABLE_WEIGHTS: &[(u16, u32)] = &[
+    (t::INSERT_UNIQUE, 18),
+    (t::INSERT_DUP, 3),
+    (t::FIND_ENTRY, 10),
+    (t::ENTRY, 8),
+    (t::RETAIN, 4),
+    (t::EXTRACT_IF, 5),
+    (t::DRAIN, 5),
+    (t::ITER, 5),
+    (t::CLEAR, 3),
+    (t::SHRINK_TO_FIT, 3),
+    (t::SHRINK_TO, 3),
+    (t::CLONE_SWAP, 4),
+    (t::FILL_TO_CAPACITY, 3),
+    (t::REMOVE_RUN, 4),
+    (t::REHASH_SETUP, 3),
+    (t::REMOVE_NTH, 3),
+];
+
+fn c03_strategy(tier: Tier) -> BoxedStrategy<Case> {
+    let n = if tier == Tier::Quick { 100 } else { 300 };
+    union2(
+        map_case_strategy(MapGen { prop: 3, weights: C03_MAP_WEIGHTS, max_ops: n, generic_pct: 20, plain_pct: 0 }),
+        3,
+        table_case_strategy(TableGen { prop: 3, weights: C03_TABLE_WEIGHTS, max_ops: n, generic_pct: 20, plain_pct: 0 }),
+        1,
+    )
+}
+
+fn c03_nontrivial(_c: &Case, o: &Outcome) -> bool {
+    o.labels & (L_DRAIN_CUT | L_INTOITER_CUT | L_EXTRACT_CUT | L_CLONE_FROM_DIFF | L_REHASH_IN_PLACE) != 0
+}
+
+pub static C03: PropDef = PropDef {
+    id: "C03",
+    rule: "histories over HashMap (3/4) and HashTable (1/4) with tracked elements (unique serial, magic word, drop \
+           glue): removal, overwrite, clear, retain, extract_if, drain, into_iter/into_keys/into_values, shrink, \
+           clone_from into occupied targets, drop; every owning iterator is cut at a generated point and dropped; \
+           non-trivial = an owning iterator / drain / extract_if was cut strictly inside, OR clone_from hit a target \
+           with different bucket count or tombstones, OR an in-place rehash moved tracked elements",
+    level: "exploration",
+    cases_quick: 24_000,
+    cases_thorough: 400_000,
+    strategy: c03_strategy,
+    eval: eval_plain,
+    nontrivial: c03_nontrivial,
+    specs: hbv::specs::MAP_OPS,
+    assumptions: &[
+        "element life cycle is observed through Drop of the tracked types; plain (no drop glue) types are not part of this check",
+        "allocations are observed through the checking allocator handed to *_in constructors",
+    ],
+    prop_labels: &[],
+};
+
+// ---------------------------------------------------------------------------------------------
+// C05: inconsistent Hash / Eq
+
+static C05_WEIGHTS: &[(u16, u32)] = &[
+    (m::INSERT, 20),
+    (m::TRY_INSERT, 3),
+    (m::GET, 6),
+    (m::GET_MUT, 3),
+    (m::REMOVE, 12),
+    (m::ENTRY, 8),
+    (m::ENTRY_REF, 5),
+    (m::EXTEND, 4),
+    (m::REBUILD, 1),
+    (m::CLEAR, 1),
+    (m::RESERVE, 3),
+    (m::SHRINK_TO_FIT, 3),
+    (m::SHRINK_TO, 2),
+    (m::RETAIN, 3),
+    (m::FILL_EXACT, 4),
+    (m::FILL_TO_CAPACITY, 3),
+    (m::REMOVE_RUN, 4),
+    (m::REMOVE_ALL_BUT, 2),
+    (m::CHURN, 3),
+    (m::REHASH_SETUP, 3),
+    (m::ITER, 3),
+    (m::DRAIN, 3),
+    (m::EXTRACT_IF, 2),
+    (m::INTO_ITER, 2),
+    (m::CLONE_TO_OTHER, 2),
+    (m::CLONE_FROM_OTHER, 2),
+    (m::GET_MANY_MUT, 3),
+    (m::RUSTC_ENTRY, 3),
+    (m::REMOVE_NTH, 3),
+];
+
+fn c05_strategy(tier: Tier) -> BoxedStrategy<Case> {
+    use proptest::prelude::*;
+    (
+        map_case_strategy(MapGen {
+            prop: 5,
+            weights: C05_WEIGHTS,
+            max_ops: if tier == Tier::Quick { 100 } else { 300 },
+            generic_pct: 20,
+            plain_pct: 30,
+        }),
+        prop_oneof![3 => Just(1u64), 2 => Just(2u64), 2 => Just(3u64), 2 => Just(4u64), 2 => Just(5u64), 2 => Just(6u64), 2 => Just(7u64), 2 => Just(8u64)],
+        1u64..48,
+        0u64..1000,
+        0u64..2,
+    )
+        .prop_map(|(mut c, mode, tape_len, tape_seed, small)| {
+            c.set("chaos", mode);
+            c.set("tape_len", tape_len);
+            c.set("tape_seed", tape_seed);
+            c.set("tape_small", if mode == 8 { 1 } else { small });
+            c
+        })
+        .boxed()
+}
+
+fn c05_nontrivial(_c: &Case, o: &Outcome) -> bool {
+    o.labels & (L_RESIZE_UP | L_RESIZE_DOWN | L_REHASH_IN_PLACE) != 0 && o.steps >= 4
+}
+
+pub static C05: PropDef = PropDef {
+    id: "C05",
+    rule: "histories over the C01 alphabet with answer tapes in the case (hash tape and eq tape consumed cyclically): \
+           modes = fresh answer every call / hash depends on call parity / equal keys with different hashes / \
+           always-equal / never-equal / non-transitive equality / eq tape only / hash tape from 4 values; only the \
+           safety subset is judged (structure, allocator, element ledger, len == yielded count, termination); \
+           non-trivial = a growth, shrink or in-place rehash happened while answers were inconsistent",
+    level: "exploration",
+    cases_quick: 24_000,
+    cases_thorough: 400_000,
+    strategy: c05_strategy,
+    eval: eval_plain,
+    nontrivial: c05_nontrivial,
+    specs: hbv::specs::MAP_OPS,
+    assumptions: &[
+        "answer tapes are finite and periodic; an adversary adapting to the table layout is only approximated",
+        "lookup results are deliberately unconstrained; the model is re-synchronised to the observed contents after every step",
+    ],
+    prop_labels: &[],
+};
+
+// ---------------------------------------------------------------------------------------------
+// C09: iterators
+
+static C09_MAP_WEIGHTS: &[(u16, u32)] = &[
+    (m::INSERT, 14),
+    (m::REMOVE, 6),
+    (m::ITER, 30),
+    (m::DRAIN, 6),
+    (m::INTO_ITER, 8),
+    (m::FILL_EXACT, 4),
+    (m::FILL_TO_CAPACITY, 3),
+    (m::REMOVE_RUN, 4),
+    (m::REHASH_SETUP, 1),
+    (m::EXTEND, 3),
+    (m::CLEAR, 1),
+    (m::SHRINK_TO_FIT, 2),
+    (m::RESERVE, 2),
+    (m::REMOVE_NTH, 3),
+];
+static C09_TABLE_WEIGHTS: &[(u16, u32)] = &[
+    (t::INSERT_UNIQUE, 14),
+    (t::INSERT_DUP, 3),
+    (t::ITER, 30),
+    (t::DRAIN, 6),
+    (t::ITER_HASH, 5),
+    (t::FILL_TO_CAPACITY, 3),
+    (t::REMOVE_RUN, 4),
+    (t::REMOVE_NTH, 4),
+    (t::CLEAR, 1),
+    (t::SHRINK_TO_FIT, 2),
+    (t::RESERVE, 2),
+];
+
+fn c09_strategy(tier: Tier) -> BoxedStrategy<Case> {
+    let n = if tier == Tier::Quick { 80 } else { 250 };
+    union2(
+        map_case_strategy(MapGen { prop: 9, weights: C09_MAP_WEIGHTS, max_ops: n, generic_pct: 25, plain_pct: 40 }),
+        2,
+        table_case_strategy(TableGen { prop: 9, weights: C09_TABLE_WEIGHTS, max_ops: n, generic_pct: 25, plain_pct: 40 }),
+        1,
+    )
+}
+
+fn c09_nontrivial(_c: &Case, o: &Outcome) -> bool {
+    o.labels & (L_ITER_CUT | L_INTOITER_CUT | L_DRAIN_CUT) != 0
+}
+
+pub static C09: PropDef = PropDef {
+    id: "C09",
+    rule: "state histories x iterator kind (map: iter, iter_mut, keys, values, values_mut, into_iter, into_keys, \
+           into_values, drain; table: iter, iter_mut, into_iter, drain) x switch-over prefix p x continuation (next \
+           to exhaustion / fold / for_each / clone-and-run-both / count / drop); size_hint and len checked at every \
+           step; non-trivial = 0 < p < len with continuation fold or clone, or an owning iterator cut strictly inside",
+    level: "exploration",
+    cases_quick: 24_000,
+    cases_thorough: 400_000,
+    strategy: c09_strategy,
+    eval: eval_plain,
+    nontrivial: c09_nontrivial,
+    specs: hbv::specs::MAP_OPS,
+    assumptions: &["set iterators are covered by the C07 check (they forward to the map iterators)"],
+    prop_labels: &[],
+};
+
+// ---------------------------------------------------------------------------------------------
+// C10: retain / extract_if / drain
+
+static C10_MAP_WEIGHTS: &[(u16, u32)] = &[
+    (m::INSERT, 14),
+    (m::REMOVE, 4),
+    (m::RETAIN, 14),
+    (m::EXTRACT_IF, 16),
+    (m::DRAIN, 10),
+    (m::FILL_EXACT, 5),
+    (m::FILL_TO_CAPACITY, 3),
+    (m::REMOVE_RUN, 3),
+    (m::EXTEND, 3),
+    (m::GET, 2),
+    (m::REMOVE_NTH, 2),
+];
+static C10_TABLE_WEIGHTS: &[(u16, u32)] = &[
+    (t::INSERT_UNIQUE, 14),
+    (t::INSERT_DUP, 3),
+    (t::RETAIN, 14),
+    (t::EXTRACT_IF, 16),
+    (t::DRAIN, 10),
+    (t::FILL_TO_CAPACITY, 4),
+    (t::REMOVE_RUN, 3),
+    (t::FIND, 2),
+    (t::REMOVE_NTH, 2),
+];
+
+fn c10_strategy(tier: Tier) -> BoxedStrategy<Case> {
+    let n = if tier == Tier::Quick { 80 } else { 250 };
+    union2(
+        map_case_strategy(MapGen { prop: 10, weights: C10_MAP_WEIGHTS, max_ops: n, generic_pct: 20, plain_pct: 30 }),
+        2,
+        table_case_strategy(TableGen { prop: 10, weights: C10_TABLE_WEIGHTS, max_ops: n, generic_pct: 20, plain_pct: 30 }),
+        1,
+    )
+}
+
+fn c10_nontrivial(_c: &Case, o: &Outcome) -> bool {
+    o.labels & (L_EXTRACT_CUT | L_DRAIN_CUT) != 0
+}
+
+pub static C10: PropDef = PropDef {
+    id: "C10",
+    rule: "state histories x predicate subsets (salted per-mille threshold on the key id) x mutation by the predicate \
+           x early-drop point, for HashMap (2/3) and HashTable (1/3); non-trivial = extract_if with a subset neither \
+           empty nor full dropped strictly inside its selection, or drain dropped strictly inside",
+    level: "exploration",
+    cases_quick: 24_000,
+    cases_thorough: 400_000,
+    strategy: c10_strategy,
+    eval: eval_plain,
+    nontrivial: c10_nontrivial,
+    specs: hbv::specs::MAP_OPS,
+    assumptions: &["HashSet::retain/extract_if/drain forward to the map and are exercised by the C07 check"],
+    prop_labels: &[],
+};
+
+// ---------------------------------------------------------------------------------------------
+// C11: clone / clone_from / ==
+
+static C11_WEIGHTS: &[(u16, u32)] = &[
+    (m::INSERT, 16),
+    (m::REMOVE, 8),
+    (m::SWAP, 12),
+    (m::CLONE_TO_OTHER, 8),
+    (m::CLONE_FROM_OTHER, 14),
+    (m::EQ_CHECK, 14),
+    (m::MIRROR_TO_OTHER, 6),
+    (m::FILL_EXACT, 4),
+    (m::FILL_TO_CAPACITY, 3),
+    (m::REMOVE_RUN, 4),
+    (m::REHASH_SETUP, 2),
+    (m::EXTEND, 4),
+    (m::CLEAR, 2),
+    (m::SHRINK_TO_FIT, 2),
+    (m::RESERVE, 2),
+    (m::GET_MUT, 3),
+    (m::DROP_RECREATE, 2),
+    (m::REMOVE_ALL_BUT, 2),
+];
+
+fn c11_strategy(tier: Tier) -> BoxedStrategy<Case> {
+    map_case_strategy(MapGen {
+        prop: 11,
+        weights: C11_WEIGHTS,
+        max_ops: if tier == Tier::Quick { 100 } else { 300 },
+        generic_pct: 20,
+        plain_pct: 20,
+    })
+}
+
+fn c11_nontrivial(_c: &Case, o: &Outcome) -> bool {
+    o.labels & (L_CLONE_FROM_DIFF | L_EQ_DIFF_HISTORY) != 0
+}
+
+pub static C11: PropDef = PropDef {
+    id: "C11",
+    rule: "two map slots with independent histories, capacities and differently seeded hash plans; swap / clone / \
+           clone_from / == in both directions, then both keep being mutated and compared with their own models; \
+           non-trivial = clone_from into a target with a different bucket count or with tombstones, or == evaluated on \
+           equal non-empty contents held under different hash plans",
+    level: "exploration",
+    cases_quick: 24_000,
+    cases_thorough: 400_000,
+    strategy: c11_strategy,
+    eval: eval_plain,
+    nontrivial: c11_nontrivial,
+    specs: hbv::specs::MAP_OPS,
+    assumptions: &["HashSet == and clone are exercised by the C07 check; HashTable clone by C06/C03"],
+    prop_labels: &[],
+};
+
+// ---------------------------------------------------------------------------------------------
+// C13: churn is reclaimed; termination
+
+static C13_WEIGHTS: &[(u16, u32)] = &[(m::CAPPED_CHURN, 30), (m::GET, 3), (m::GET_ABSENT, 4), (m::REMOVE, 3), (m::ENTRY, 2), (m::REMOVE_NTH, 2)];
+
+fn c13_strategy(tier: Tier) -> BoxedStrategy<Case> {
+    use proptest::prelude::*;
+    (
+        map_case_strategy(MapGen {
+            prop: 13,
+            weights: C13_WEIGHTS,
+            max_ops: if tier == Tier::Quick { 120 } else { 900 },
+            generic_pct: 20,
+            plain_pct: 50,
+        }),
+        prop_oneof![2 => 1u64..8, 3 => 8u64..40, 2 => 40u64..120, 1 => 120u64..300],
+    )
+        .prop_map(|(mut c, live_cap)| {
+            c.set("c13", 1);
+            c.set("cap", 0);
+            c.set("live_cap", live_cap);
+            c.set("sweep", 64);
+            c
+        })
+        .boxed()
+}
+
+fn c13_nontrivial(c: &Case, o: &Outcome) -> bool {
+    let basic = o.counters.iter().find(|x| x.0 == "basic_ops").map_or(0, |x| x.1);
+    basic >= 20 * c.h("live_cap") && o.labels & (L_REHASH_IN_PLACE | L_TOMBSTONE_REUSE) != 0
+}
+
+pub static C13: PropDef = PropDef {
+    id: "C13",
+    rule: "long insert/remove/lookup histories (plain and entry forms, never reserve/extend/with_capacity) with the \
+           live count capped at n in 1..300 and removal patterns FIFO / LIFO / random / clustered-by-bucket / \
+           alternating, all hash plans, an absent-key lookup after every removal; oracle: allocation_size() <= \
+           allocation_size of with_capacity(4 * peak live) at every step, an EMPTY slot always exists and growth_left \
+           cannot consume the last one, per-operation watchdog; non-trivial = at least 20 x n basic operations and \
+           at least one in-place rehash or tombstone reuse",
+    level: "exploration",
+    cases_quick: 3_200,
+    cases_thorough: 40_000,
+    strategy: c13_strategy,
+    eval: eval_plain,
+    nontrivial: c13_nontrivial,
+    specs: hbv::specs::MAP_OPS,
+    assumptions: &[
+        "the constant 4 is a chosen threshold (measured maximum is reported as max_c13_ratio_permille)",
+        "termination is judged through the structural invariant plus a watchdog: evidence, not proof",
+    ],
+    prop_labels: &[],
+};
+
+// ---------------------------------------------------------------------------------------------
+// C14: entry-style APIs
+
+static C14_WEIGHTS: &[(u16, u32)] = &[
+    (m::ENTRY, 16),
+    (m::ENTRY_REF, 12),
+    (m::RAW_ENTRY, 16),
+    (m::RAW_ENTRY_RO, 4),
+    (m::RUSTC_ENTRY, 16),
+    (m::INSERT, 6),
+    (m::REMOVE, 5),
+    (m::FILL_TO_CAPACITY, 8),
+    (m::FILL_EXACT, 3),
+    (m::REMOVE_RUN, 5),
+    (m::REHASH_SETUP, 4),
+    (m::REMOVE_ALL_BUT, 2),
+    (m::SHRINK_TO_FIT, 3),
+    (m::CLEAR, 1),
+    (m::DROP_RECREATE, 2),
+    (m::REMOVE_NTH, 3),
+];
+
+fn c14_strategy(tier: Tier) -> BoxedStrategy<Case> {
+    map_case_strategy(MapGen {
+        prop: 14,
+        weights: C14_WEIGHTS,
+        max_ops: if tier == Tier::Quick { 100 } else { 300 },
+        generic_pct: 20,
+        plain_pct: 30,
+    })
+}
+
+fn c14_nontrivial(_c: &Case, o: &Outcome) -> bool {
+    o.labels & (L_ENTRY_AT_FULL | L_PROBE_TOMB) != 0
+}
+
+pub static C14: PropDef = PropDef {
+    id: "C14",
+    rule: "states biased to len()==capacity(), tombstone-saturated and the unallocated singleton x key present/absent \
+           x API (entry, entry_ref, raw_entry, raw_entry_mut via from_key / from_key_hashed_nocheck / from_hash, \
+           rustc_entry) x method chains; the chain's effect and return values are compared with the equivalent plain \
+           get/insert/remove on the model; non-trivial = an entry was created at growth_left == 0 or the key's probe \
+           window held a tombstone. HashSet::entry is checked by C07.",
+    level: "exploration",
+    cases_quick: 24_000,
+    cases_thorough: 400_000,
+    strategy: c14_strategy,
+    eval: eval_plain,
+    nontrivial: c14_nontrivial,
+    specs: hbv::specs::MAP_OPS,
+    assumptions: &["raw-entry hashes are computed by the oracle with the same plan the map's BuildHasher uses (lawful use)"],
+    prop_labels: &[],
+};
+
+// ---------------------------------------------------------------------------------------------
+// C15: get_many_mut
+
+static C15_MAP_WEIGHTS: &[(u16, u32)] = &[
+    (m::GET_MANY_MUT, 40),
+    (m::INSERT, 14),
+    (m::REMOVE, 6),
+    (m::FILL_EXACT, 3),
+    (m::REMOVE_RUN, 3),
+    (m::GET, 2),
+    (m::REHASH_SETUP, 1),
+];
+static C15_TABLE_WEIGHTS: &[(u16, u32)] = &[
+    (t::GET_MANY_MUT, 40),
+    (t::INSERT_UNIQUE, 14),
+    (t::INSERT_DUP, 6),
+    (t::FIND_ENTRY, 5),
+    (t::FILL_TO_CAPACITY, 2),
+    (t::REMOVE_RUN, 3),
+    (t::REMOVE_NTH, 3),
+];
+
+fn c15_strategy(tier: Tier) -> BoxedStrategy<Case> {
+    let n = if tier == Tier::Quick { 60 } else { 200 };
+    union2(
+        map_case_strategy(MapGen { prop: 15, weights: C15_MAP_WEIGHTS, max_ops: n, generic_pct: 20, plain_pct: 30 }),
+        2,
+        table_case_strategy(TableGen { prop: 15, weights: C15_TABLE_WEIGHTS, max_ops: n, generic_pct: 20, plain_pct: 30 }),
+        1,
+    )
+}
+
+fn c15_nontrivial(_c: &Case, o: &Outcome) -> bool {
+    o.labels & L_MANY_MUT != 0
+}
+
+pub static C15: PropDef = PropDef {
+    id: "C15",
+    rule: "states x N in 0..=4 x key tuples with duplicates, absent and colliding keys (HashMap get_many_mut and \
+           get_many_key_value_mut; HashTable get_many_mut with exact and id-only equality closures that can match \
+           several entries); non-zero-sized elements; non-trivial = N >= 2 with at least two present keys, or a tuple \
+           naming the same present entry twice",
+    level: "exploration",
+    cases_quick: 24_000,
+    cases_thorough: 400_000,
+    strategy: c15_strategy,
+    eval: eval_plain,
+    nontrivial: c15_nontrivial,
+    specs: hbv::specs::MAP_OPS,
+    assumptions: &["zero-sized elements are excluded (DESIGN 11.1: all ZST buckets share one dangling address)"],
+    prop_labels: &[],
 };
 
 pub fn all() -> Vec<&'static PropDef> {
-    vec![&C01, &C04]
+    vec![&C01, &C03, &C04, &C05, &C06, &C09, &C10, &C11, &C13, &C14, &C15]
 }
